@@ -18,14 +18,14 @@ import (
 
 // PropSpec says which functions carry a property and which obligations of theirs are deliberately not claimed.
 type PropSpec struct {
-	Packages  []string          `json:"packages"`
-	Units     []string          `json:"units"`     // regexps on "pkg funcKey"
-	Exclude   []string          `json:"exclude"`   // regexps on "pkg funcKey" removed from Units
-	Kinds     []string          `json:"kinds"`     // obligation kinds that count for this property (prefix match); empty = all
-	Undecided map[string]string `json:"undecided"` // regexp on obligation name -> reason (not claimed, never counted as proved)
-	Closure   bool                `json:"closure"` // also check every function of the verified packages statically reachable from the units
-	Borrow    map[string][]string `json:"borrow"`  // obligation kind prefix -> tags of other properties whose obligations of that kind count here too
-	Note      string            `json:"note"`
+	Packages  []string            `json:"packages"`
+	Units     []string            `json:"units"`     // regexps on "pkg funcKey"
+	Exclude   []string            `json:"exclude"`   // regexps on "pkg funcKey" removed from Units
+	Kinds     []string            `json:"kinds"`     // obligation kinds that count for this property (prefix match); empty = all
+	Undecided map[string]string   `json:"undecided"` // regexp on obligation name -> reason (not claimed, never counted as proved)
+	Closure   bool                `json:"closure"`   // also check every function of the verified packages statically reachable from the units
+	Borrow    map[string][]string `json:"borrow"`    // obligation kind prefix -> tags of other properties whose obligations of that kind count here too
+	Note      string              `json:"note"`
 }
 
 type KnownFindings struct {
@@ -262,6 +262,10 @@ func cmdCheck(args []string) {
 	solverTime := 0.0
 	secsByFunc := map[string]float64{}
 	var detachedClauses []string
+	var deadReturns []string
+	var suspectVacuity []string
+	deadBaseline := map[string]int{}
+	readJSON(verifDir+"/specs/dead_returns.json", &deadBaseline)
 	exit := 0
 	var slow []string
 	const slowThreshold = 3.0
@@ -273,6 +277,16 @@ func cmdCheck(args []string) {
 		}
 		if u.Vacuous != "" {
 			toolErrors = append(toolErrors, fmt.Sprintf("vacuity: the assumptions of %s are contradictory where it returns (%s): nothing proved about it counts", ukey, u.Vacuous))
+		}
+		for _, d := range u.DeadRets {
+			deadReturns = append(deadReturns, ukey+" "+d)
+		}
+		if n := len(u.DeadRets); n > deadBaseline[ukey] {
+			// more returns than the audited dead (defensive) ones are unreachable under the assumptions: either new dead code
+			// or assumptions that contradict each other on some path. Reported, not counted as a violation.
+			msg := fmt.Sprintf("%s: %d unreachable returns, %d audited as dead code (%s)", ukey, n, deadBaseline[ukey], strings.Join(u.DeadRets, " "))
+			fmt.Println("SUSPECT-VACUITY:", msg)
+			suspectVacuity = append(suspectVacuity, msg)
 		}
 		for _, d := range u.Detached {
 			fmt.Println("DETACHED:", d)
@@ -499,23 +513,25 @@ func cmdCheck(args []string) {
 		"property_id": *prop, "tier": *tier, "seed": seed, "level": level, "wall_s": wall, "violations": len(violations),
 		"coverage": map[string]interface{}{
 			"obligations": total, "discharged": discharged,
-			"checker_cmd":              fmt.Sprintf("/verif/bin/govc check -prop %s -tier %s", *prop, *tier),
-			"trusted_base":             trustedBase,
-			"functions_under_contract": funcsUnder,
-			"functions_inlined":        inl,
-			"discharged_by_solver":     bySolver,
-			"solver_seconds":           solverTime,
-			"known_findings":           knownHits,
-			"not_claimed":              undecidedHits,
-			"undecided_new":            newUndecided,
-			"tool_errors":              toolErrors,
-			"detached_clauses":         detachedClauses,
-			"must_fail_corpus":         mutants,
-			"slow_obligations":         slow,
-			"solver_seconds_by_function": secsByFunc,
-			"samples":                  samples,
-			"repo_head":                strings.Split(before, "|")[0],
-			"note":                     spec.Note,
+			"checker_cmd":                     fmt.Sprintf("/verif/bin/govc check -prop %s -tier %s", *prop, *tier),
+			"trusted_base":                    trustedBase,
+			"functions_under_contract":        funcsUnder,
+			"functions_inlined":               inl,
+			"discharged_by_solver":            bySolver,
+			"solver_seconds":                  solverTime,
+			"known_findings":                  knownHits,
+			"not_claimed":                     undecidedHits,
+			"undecided_new":                   newUndecided,
+			"tool_errors":                     toolErrors,
+			"detached_clauses":                detachedClauses,
+			"unreachable_returns":             deadReturns,
+			"unreachable_returns_not_audited": suspectVacuity,
+			"must_fail_corpus":                mutants,
+			"slow_obligations":                slow,
+			"solver_seconds_by_function":      secsByFunc,
+			"samples":                         samples,
+			"repo_head":                       strings.Split(before, "|")[0],
+			"note":                            spec.Note,
 		},
 		"assumptions": assumptions,
 	}
